@@ -750,7 +750,17 @@ func (c *wsConn) handleWsConn(ctx context.Context) {
 	}
 
 	// start frame executor
-	go c.frameExecutor(ctx)
+	execDone := make(chan struct{})
+	go func() {
+		defer close(execDone)
+		c.frameExecutor(ctx)
+	}()
+	// on exit, stop the frame executor before in-flight requests and channels are closed
+	// below, so a queued response can't register a channel sink that nothing will ever close
+	defer func() {
+		cancel()
+		<-execDone
+	}()
 
 	// wait for the first message
 	go c.nextMessage()
